@@ -1325,6 +1325,18 @@ class TaskScenario(ScenarioData):
                 # Can't book - one or more resources unavailable
                 return
 
+            # Team members work the same instants: the part of this slot that one member
+            # has already used is not workable for the team, so every member starts where
+            # the busiest one is free.
+            slot_idx = self.currentSlotIdx if self.currentSlotIdx is not None else 0
+            team_used = 0.0
+            for resource in resources_to_book:
+                team_used = max(team_used, resource.data[self.scenarioIdx].slotSecondsUsed.get(slot_idx, 0.0))
+            for resource in resources_to_book:
+                res_scenario = resource.data[self.scenarioIdx]
+                if res_scenario.slotSecondsUsed.get(slot_idx, 0.0) < team_used:
+                    res_scenario.slotSecondsUsed[slot_idx] = team_used
+
         # Now book all resources (or single resource for non-team tasks)
         booked_any = False
         total_effort_this_slot = 0.0
